@@ -266,6 +266,11 @@ theorem ts_to_affine_act (T : TranslateScale K) (p : Point K) : T.to_affine * p 
 theorem ts_mul_to_affine (S T : TranslateScale K) : (S * T).to_affine = S.to_affine * T.to_affine := by kaff
 theorem ts_mul_action (S T : TranslateScale K) (p : Point K) : (S * T) * p = S * (T * p) := by kaff
 theorem ts_to_affine_det (T : TranslateScale K) : T.to_affine.determinant = T.scale * T.scale := by kaff
+/-- `k * ts` (the scalar multiple, `impl Mul<TranslateScale> for f64`) converts to the scalar multiple of the affine map: every coefficient is scaled -/
+theorem ts_scalar_mul_to_affine (k : K) (T : TranslateScale K) :
+    (TranslateScale.scalar_mul k T).to_affine = Affine.scalar_mul k T.to_affine := by
+  simp only [TranslateScale.scalar_mul, Affine.scalar_mul, TranslateScale.to_affine, kdefs, scalar_norm, Affine.mk.injEq]
+  refine ⟨?_, ?_, ?_, ?_, ?_, ?_⟩ <;> ring
 
 theorem ts_inverse_act (T : TranslateScale K) (h : T.scale ≠ 0) (p : Point K) :
     T * (T.inverse * p) = p ∧ T.inverse * (T * p) = p := by
